@@ -20,7 +20,7 @@ LEVEL_NOTE = ("Trusted: SimNet FIFO model, brute-force oracle. 'Enough messages'
 RULE = ("case = forest DCOP + algorithm + parameters + schedule; discarded unless the optimum is unique; non-trivial = "
         ">=3 variables in one component with factor-graph diameter >= 4; distinct by sha1(case)")
 ASSUMPTIONS = ["integer costs in [0,1000] so that float normalisation errors (1e-12) cannot flip a decision"]
-BUDGET = {"quick": {"workers": 8, "examples": 150, "seconds": 45},
+BUDGET = {"quick": {"workers": 8, "examples": 150, "seconds": 28},
           "thorough": {"workers": 16, "examples": 2000, "seconds": 600}}
 
 SAME_COUNT = 4
@@ -28,8 +28,11 @@ SAME_COUNT = 4
 
 @st.composite
 def cases(draw, algos=("maxsum", "amaxsum")):
+    # one case in five draws all its costs from a narrow band on a large offset (relative differences below the
+    # default stability threshold of 10 %)
+    band = st.integers(1000, 1020) if draw(st.integers(0, 4)) == 0 else st.integers(0, 1000)
     desc = draw(gen.dcops(min_vars=1, max_vars=6, min_dom=1, max_dom=3, max_constraints=7, min_constraints=1,
-                          arities=(1, 2, 2, 3), var_costs=True, costs=st.integers(0, 1000), shape="forest",
+                          arities=(1, 2, 2, 3), var_costs=True, costs=band, shape="forest",
                           kinds=("matrix",)))
     algo = draw(st.sampled_from(list(algos)))
     params = {"damping": 0.0, "noise": 0.0, "damping_nodes": draw(st.sampled_from(["none", "both"])),
@@ -103,3 +106,19 @@ def run_case(case):
     except UnderTestError as e:
         return Outcome(False, "raised %s at %s" % (e, e.frame), True, labels, info={"exc": e.exc_type})
     return Outcome(True, "", nontrivial, labels, info={"steps": net.step, "diam": diam})
+
+
+def classify(case, out):
+    """Listed finding C05-stability-cutoff: with a stability threshold > 0 (0.1 is the default) a computation stops
+    sending a message once it changed by less than the threshold, relatively, SAME_COUNT times in a row; on trees whose
+    costs sit on a large common offset every update is 'small' and propagation freezes before the exact marginals are
+    reached.  Matched only when the same case - same DCOP, schedule, start mode - selects the optimum with the
+    threshold set to 0, i.e. the cut-off is the only cause."""
+    if case["params"].get("stability", 0) > 0 and (out.info or {}).get("phase") == "optimum":
+        again = dict(case, params=dict(case["params"], stability=0.0))
+        try:
+            if run_case(again).ok:
+                return "C05-stability-cutoff"
+        except Exception:
+            return None
+    return None
